@@ -373,10 +373,6 @@ func (this *partition) updateValue(notificationId uuid.UUID, id uuid.UUID, value
 		this.notificator.Notify(notificationId, err, false)
 		return nil
 	}
-	if err := this.index.Remove(id); err != nil {
-		this.notificator.Notify(notificationId, err, false)
-		return nil
-	}
 	if metadata == nil {
 		metadata = make(index.Metadata)
 	}
@@ -384,6 +380,15 @@ func (this *partition) updateValue(notificationId uuid.UUID, id uuid.UUID, value
 		if _, exists := metadata[k]; !exists {
 			metadata[k] = v
 		}
+	}
+	// The re-insert below must not fail once the old item is gone.
+	if err := metadata.Validate(); err != nil {
+		this.notificator.Notify(notificationId, err, false)
+		return nil
+	}
+	if err := this.index.Remove(id); err != nil {
+		this.notificator.Notify(notificationId, err, false)
+		return nil
 	}
 	err = this.index.Insert(id, value, metadata, vertex.Level())
 	this.notificator.Notify(notificationId, err, false)
@@ -423,10 +428,6 @@ func (this *partition) batchUpdateValue(notificationId uuid.UUID, items []*pb.Ba
 			errors[id] = err
 			continue
 		}
-		if err := this.index.Remove(id); err != nil {
-			errors[id] = err
-			continue
-		}
 		metadata := item.GetMetadata()
 		if metadata == nil {
 			metadata = make(map[string]string)
@@ -435,6 +436,15 @@ func (this *partition) batchUpdateValue(notificationId uuid.UUID, items []*pb.Ba
 			if _, exists := metadata[k]; !exists {
 				metadata[k] = v
 			}
+		}
+		// The re-insert below must not fail once the old item is gone.
+		if err := index.Metadata(metadata).Validate(); err != nil {
+			errors[id] = err
+			continue
+		}
+		if err := this.index.Remove(id); err != nil {
+			errors[id] = err
+			continue
 		}
 		if err := this.index.Insert(id, item.GetValue(), metadata, vertex.Level()); err != nil {
 			errors[id] = err
